@@ -72,6 +72,88 @@ def extract(src_dir=None, feature="", crates=None):
     return out, False
 
 
+def fn_key(path):
+    """A function's name without what a refactoring changes freely: generic/lifetime arguments, the module an inherent impl block
+    sits in. `cache::debug::<impl cache::raw::ProguardCache<'data>>::display` -> `cache::raw::ProguardCache::display`."""
+    out, i = [], 0
+    while i < len(path):
+        c = path[i]
+        if c == "<":
+            d, j = 0, i
+            while True:
+                if path[j] == "<":
+                    d += 1
+                elif path[j] == ">" and path[j - 1] != "-":
+                    d -= 1
+                    if d == 0:
+                        break
+                j += 1
+            inner = path[i + 1:j]
+            if inner.startswith("impl ") or " as " in inner:
+                out.append("<" + fn_key(inner) + ">")
+            elif out and out[-1] == ":" and len(out) > 1 and out[-2] == ":":
+                out = out[:-2]
+            i = j + 1
+            continue
+        out.append(c)
+        i += 1
+    k = "".join(out)
+    m = k.find("<impl ")
+    if m >= 0:
+        e = k.index(">", m)
+        k = k[m + 6:e] + k[e + 1:]
+    return k[10:] if k.startswith("proguard::") else k
+
+
+PARAM_NAMES_FILE = os.path.join(os.path.dirname(os.path.abspath(__file__)), "param_names.json")
+
+
+def canonical_param_names(fx):
+    """Parameter names are not behaviour: callers pass by position. The rules name a function's inputs (`in(bytes)`, `in(frame)`)
+    the way the reference tree does; `param_names.json` freezes those names per function and position, and a function of the same
+    arity in the analysed tree has its parameters renamed to them (binding, every use, every capture by its closures; variables are
+    resolved by id, so a local that happens to carry the reference name is unaffected). A function the table does not know, or whose
+    arity changed, is left as it is. Returns {path: {old: new}} for the evidence."""
+    try:
+        table = json.load(open(PARAM_NAMES_FILE))
+    except OSError:
+        return {}
+    by_key = {}
+    for p, b in fx.bodies.items():
+        if b["krate"] == "proguard" and b["kind"] in ("Fn", "AssocFn"):
+            by_key.setdefault(fn_key(p), []).append(p)
+    done = {}
+    for k, ps in by_key.items():
+        want = table.get(k)
+        if want is None or len(ps) != 1:
+            continue
+        b = fx.bodies[ps[0]]
+        pats = [prm.get("pat") for prm in b["params"]]
+        if len(pats) != len(want):
+            continue
+        ren = {}
+        for pat, w in zip(pats, want):
+            if w is None or pat is None or pat.get("k") != "Bind" or pat.get("sub") is not None:
+                continue
+            if pat["name"] != w and pat["name"] != "self" and w != "self":
+                ren[pat["id"]] = (pat["name"], w)
+                pat["name"] = w
+        if not ren:
+            continue
+        todo, seen = [ps[0]], set()
+        while todo:
+            q = todo.pop()
+            if q in seen:
+                continue
+            seen.add(q)
+            for n in walk(fx.bodies[q]["body"]):
+                if n.get("k") in ("Var", "Upvar") and n.get("id") in ren and n.get("name") == ren[n["id"]][0]:
+                    n["name"] = ren[n["id"]][1]
+            todo += [c["path"] for c in fx.closures_of(q)]
+        done[ps[0]] = {o: w for o, w in ren.values()}
+    return done
+
+
 class Facts:
     def __init__(self, fact_dir, crates=CRATES):
         self.dir = fact_dir
@@ -96,6 +178,7 @@ class Facts:
             self.errors += d["errors"]
         self._cg = None
         self._ti = None
+        self.renamed_params = canonical_param_names(self)
 
     # ---- lookup -----------------------------------------------------------
     def body(self, path):
